@@ -14,7 +14,9 @@ The model is of the code as it stands; the property's wording is the L0 layer (`
 * `sanitize_reflect_upper` (via `assign_le_of_lex`, monotonicity of the assignment);
 * `sanitize_order_independent`, `sanitize_one_based`;
 * `sanitize_rejects_outside_partial`, `sanitize_rejects_outside_fails` (known finding D13);
-* `pixels_count_once`, `pixels_reflect_upper` for pre-binned records.
+* `pixels_count_once`, `pixels_reflect_upper` for pre-binned records;
+* `tabix_correct` — the row-by-row stream of `TabixAggregator` equals `sanitize`∘`aggregate` (via the
+  key-range splitting lemma `rows_flatMap_eq`).
 -/
 namespace Cooler.C05
 open Cooler Cooler.Sanitize
@@ -1492,5 +1494,284 @@ theorem pixels_reflect_upper (o : Opts) (ht : o.tril = .reflect ∨ o.tril = .dr
 
 example : sanitizePixels { oneBased := true, sort := true } [⟨3, 1, [], [], [5]⟩, ⟨1, 2, [], [], [7]⟩]
     = .ok [⟨0, 1, [], [], [7]⟩, ⟨0, 2, [], [], [5]⟩] := by decide
+
+
+/-! ## the tabix-indexed loader -/
+
+theorem insertCell_append_left {k : Key} {v : Int} {A X : List Cell} (h : ∀ c ∈ A, klt c.k k) :
+    insertCell k v (A ++ X) = A ++ insertCell k v X := by
+  induction A with
+  | nil => rfl
+  | cons a A ih =>
+    rw [List.cons_append, insertCell_gt (h a List.mem_cons_self),
+      ih (fun c hc => h c (List.mem_cons_of_mem _ hc))]
+    rfl
+
+theorem insertCell_append_right {k : Key} {v : Int} {B C : List Cell} (h : ∀ c ∈ C, klt k c.k) :
+    insertCell k v (B ++ C) = insertCell k v B ++ C := by
+  induction B with
+  | nil =>
+    cases C with
+    | nil => rfl
+    | cons c C => rw [List.nil_append, insertCell_lt (h c List.mem_cons_self)]; rfl
+  | cons b B ih =>
+    rw [List.cons_append]
+    rcases klt_tri k b.k with h1 | h1 | h1
+    · rw [insertCell_lt h1, insertCell_lt h1]; rfl
+    · rw [insertCell_eq h1, insertCell_eq h1]; rfl
+    · rw [insertCell_gt h1, insertCell_gt h1, ih]; rfl
+
+theorem flatMap_congr_mem {α β : Type} {l : List α} {f g : α → List β} (h : ∀ a ∈ l, f a = g a) :
+    l.flatMap f = l.flatMap g := by
+  induction l with
+  | nil => rfl
+  | cons x l ih =>
+    rw [List.flatMap_cons, List.flatMap_cons, h x List.mem_cons_self,
+      ih (fun a ha => h a (List.mem_cons_of_mem _ ha))]
+
+/-- cells of row `i` -/
+def rowCells (K : List (Key × Int)) (i : Int) : List Cell := groupCells (K.filter fun kv => decide (kv.1.1 = i))
+
+theorem mem_rowCells_row {K : List (Key × Int)} {i : Int} {c : Cell} (h : c ∈ rowCells K i) : c.k.1 = i := by
+  obtain ⟨kv, hkv, hk⟩ := (mem_groupCells_keys _ c.k).mp ⟨c, h, rfl⟩
+  have := (List.mem_filter.mp hkv).2
+  simp only [decide_eq_true_eq] at this
+  rw [← hk]; exact this
+
+theorem rowCells_cons_same (x : Key × Int) (K : List (Key × Int)) :
+    rowCells (x :: K) x.1.1 = insertCell x.1 x.2 (rowCells K x.1.1) := by
+  unfold rowCells
+  rw [List.filter_cons_of_pos (by simp)]
+  rfl
+
+theorem rowCells_cons_other (x : Key × Int) (K : List (Key × Int)) {i : Int} (h : x.1.1 ≠ i) :
+    rowCells (x :: K) i = rowCells K i := by
+  unfold rowCells
+  rw [List.filter_cons_of_neg (by simpa using h)]
+
+/-- **key-range splitting**: grouping row by row, rows in increasing order, is grouping everything -/
+theorem rows_flatMap_eq (rows : List Int) (hs : rows.Pairwise (· < ·)) :
+    ∀ K : List (Key × Int), (∀ kv ∈ K, kv.1.1 ∈ rows) → rows.flatMap (rowCells K) = groupCells K := by
+  intro K
+  induction K with
+  | nil =>
+    intro _
+    have : ∀ i, rowCells [] i = [] := fun _ => rfl
+    simp [this, groupCells]
+  | cons x K ih =>
+    intro hK
+    have ihK := ih (fun kv h => hK kv (List.mem_cons_of_mem _ h))
+    have hx := hK x List.mem_cons_self
+    have hg : groupCells (x :: K) = insertCell x.1 x.2 (groupCells K) := rfl
+    rw [hg, ← ihK]
+    -- push the insertion to its row
+    clear ihK hg ih hK
+    induction rows with
+    | nil => simp at hx
+    | cons r rs ihr =>
+      have hr : ∀ s ∈ rs, r < s := fun s hs' => List.rel_of_pairwise_cons hs hs'
+      rw [List.flatMap_cons, List.flatMap_cons]
+      by_cases hxr : x.1.1 = r
+      · subst hxr
+        rw [rowCells_cons_same, insertCell_append_right]
+        · congr 1
+          apply flatMap_congr_mem
+          intro s hs'
+          exact rowCells_cons_other x K (by have := hr s hs'; omega)
+        · intro c hc
+          obtain ⟨s, hs', hcs⟩ := List.mem_flatMap.mp hc
+          have h1 := mem_rowCells_row hcs
+          have h2 := hr s hs'
+          left; omega
+      · have hx' : x.1.1 ∈ rs := by
+          rcases List.mem_cons.mp hx with h | h
+          · exact absurd h hxr
+          · exact h
+        rw [rowCells_cons_other x K hxr, insertCell_append_left, ihr (List.Pairwise.of_cons hs) hx']
+        intro c hc
+        have h1 := mem_rowCells_row hc
+        have h2 := hr _ hx'
+        left; omega
+
+/-- a row of the table is a row of its chromosome's group -/
+theorem group_index_of {bins : BinTable} (hs : ChromSorted bins) {i : Nat} {b : Bin}
+    (h : bins[i]? = some b) :
+    ∃ k, i = chromOff bins b.chrom + k ∧ (groupOf bins b.chrom)[k]? = some b := by
+  have e := sorted_split hs b.chrom
+  have hlt : i < bins.length := by
+    rcases Nat.lt_or_ge i bins.length with h' | h'
+    · exact h'
+    · rw [List.getElem?_eq_none h'] at h; simp at h
+  rw [congrArg (fun l => l[i]?) e, List.append_assoc] at h
+  rcases Nat.lt_or_ge i (chromOff bins b.chrom) with h1 | h1
+  · rw [List.getElem?_append_left (by rw [← chromOff_eq_length]; exact h1)] at h
+    have := (List.mem_filter.mp (List.mem_of_getElem? h)).2
+    simp at this
+  · rw [List.getElem?_append_right (by rw [← chromOff_eq_length]; exact h1), ← chromOff_eq_length] at h
+    rcases Nat.lt_or_ge (i - chromOff bins b.chrom) (groupOf bins b.chrom).length with h2 | h2
+    · rw [List.getElem?_append_left (by rw [← groupOf_eq_filter]; exact h2), ← groupOf_eq_filter] at h
+      exact ⟨i - chromOff bins b.chrom, by omega, h⟩
+    · rw [List.getElem?_append_right (by rw [← groupOf_eq_filter]; exact h2)] at h
+      have := (List.mem_filter.mp (List.mem_of_getElem? h)).2
+      simp at this
+
+/-- in a valid table the bin of chromosome `c` containing `p` is unique: a row that contains the
+position IS the row `binOf` reports -/
+theorem binOf_of_contains {bins : BinTable} (hT : TableOK bins) {i : Nat} {b : Bin}
+    (hb : bins[i]? = some b) {p : Nat} (h1 : b.start ≤ p) (h2 : p < b.stop) :
+    binOfNat bins b.chrom p = some i := by
+  obtain ⟨k, rfl, hk⟩ := group_index_of hT.1 hb
+  have hne : groupOf bins b.chrom ≠ [] := by
+    intro e; rw [e] at hk; simp at hk
+  have hv := hT.2 _ (groupOf_mem_groups hne)
+  exact binOfNat_of_group hT.1 hv.2 hk h1 h2
+
+/-- the first side of a fetched record decides the row: the index lookup and the bin assignment agree -/
+theorem fetched_iff {bins : BinTable} (hT : TableOK bins) {bs : Option Nat}
+    (hbs : ∀ b, bs = some b → ∀ g ∈ groups bins, UniformChrom b g) {i : Nat} {b : Bin}
+    (hb : bins[i]? = some b) {c1 : Nat} {p1 : Int} (h0 : 0 ≤ p1) (hL : p1 < (chromLen bins c1 : Int)) :
+    (b.chrom = c1 ∧ (b.start : Int) ≤ p1 ∧ p1 < (b.stop : Int)) ↔ assignBin bins bs c1 p1 = (i : Int) := by
+  have ha := assign_eq_binOf hT hbs h0 hL
+  constructor
+  · rintro ⟨rfl, h1, h2⟩
+    obtain ⟨p, rfl⟩ := Int.eq_ofNat_of_zero_le h0
+    have := binOf_of_contains hT hb (p := p) (by omega) (by omega)
+    unfold binOf at ha
+    have hneg : ¬ ((p : Int) < 0) := by omega
+    simp only [hneg, if_false, Int.toNat_natCast, this, Option.map_some] at ha
+    exact (Option.some.inj ha).symm
+  · intro h
+    rw [h] at ha
+    obtain ⟨_, _, b', hb', hc, hs1, hs2⟩ := binOf_sound ha
+    simp only [Int.toNat_natCast] at hb'
+    rw [hb] at hb'
+    have := Option.some.inj hb'
+    subst this
+    exact ⟨hc, hs1, hs2⟩
+
+theorem filterMap_congr_mem {α β : Type} {l : List α} {f g : α → Option β} (h : ∀ a ∈ l, f a = g a) :
+    l.filterMap f = l.filterMap g := by
+  induction l with
+  | nil => rfl
+  | cons x l ih =>
+    rw [List.filterMap_cons, List.filterMap_cons, h x List.mem_cons_self,
+      ih (fun a ha => h a (List.mem_cons_of_mem _ ha))]
+
+/-- the anchor of one line of the indexed file -/
+def tbxAnchor (oneBased : Bool) (r : TbxRec) : Option Anchor :=
+  anchorOf false ⟨r.c1, r.p1, r.c2, r.p2 - (if oneBased then 1 else 0), [], [], []⟩
+
+theorem tbx_anchors (oneBased : Bool) (file : List TbxRec) :
+    anchors { tril := .keep } (tbxRecs oneBased file) = file.filterMap (tbxAnchor oneBased) := by
+  unfold anchors tbxRecs
+  rw [List.filterMap_map]
+  rfl
+
+theorem tbxHits_eq {bins : BinTable} (hT : TableOK bins) (oneBased : Bool) (file : List TbxRec)
+    (hin : ∀ a ∈ anchors { tril := .keep } (tbxRecs oneBased file), a.inside bins) {i : Nat} {b : Bin}
+    (hb : bins[i]? = some b) :
+    tbxHits bins (getBinsize bins) oneBased file i b =
+      ((anchors { tril := .keep } (tbxRecs oneBased file)).map (keyOf bins (getBinsize bins))).filter
+        fun kv => decide (kv.1.1 = (i : Int)) := by
+  rw [tbx_anchors] at hin ⊢
+  unfold tbxHits tbxFetch
+  rw [List.filterMap_filter, List.map_filterMap, List.filter_filterMap]
+  apply filterMap_congr_mem
+  intro r hr
+  cases hc1 : r.c1 with
+  | none => simp [tbxAnchor, anchorOf, hc1]
+  | some c1 =>
+    cases hc2 : r.c2 with
+    | none => simp [tbxAnchor, anchorOf, hc1, hc2]
+    | some c2 =>
+      have ha : tbxAnchor oneBased r = some ⟨c1, r.p1, c2, r.p2 - (if oneBased then 1 else 0), 0⟩ := by
+        simp [tbxAnchor, anchorOf, hc1, hc2, firstVal]
+      have hins := hin _ (List.mem_filterMap.mpr ⟨r, hr, ha⟩)
+      obtain ⟨i1, i2, _, _⟩ := hins
+      have hiff := fetched_iff hT (binsize_truthful hT) hb (c1 := c1) (p1 := r.p1) i1 i2
+      rw [ha]
+      simp only [Option.map_some, keyOf, Option.filter_some]
+      by_cases hf : b.chrom = c1 ∧ (b.start : Int) ≤ r.p1 ∧ r.p1 < (b.stop : Int)
+      · have hk := hiff.mp hf
+        simp [hf.1, hf.2.1, hf.2.2, hk]
+      · have hk : ¬ assignBin bins (getBinsize bins) c1 r.p1 = (i : Int) := fun h => hf (hiff.mpr h)
+        simp [hk]
+        intro h1 h2
+        apply Classical.byContradiction
+        intro h3
+        exact hf ⟨h1.symm, h2, by omega⟩
+
+/-- **tabix_correct**: on a valid table, for an indexed file whose records on known chromosomes lie
+inside their chromosomes, the stream `TabixAggregator` produces (row by row through the index) is the
+aggregate `sanitize_records` ∘ `aggregate_records` gives for the same records — each record counted
+once, in the pixel of its two anchors.  (pysam's `fetch` is the primitive `tbxFetch`.) -/
+theorem tabix_correct {bins : BinTable} (hT : TableOK bins) (oneBased : Bool) (file : List TbxRec)
+    (hin : ∀ a ∈ anchors { tril := .keep } (tbxRecs oneBased file), a.inside bins) :
+    aggregated bins { tril := .keep } (tbxRecs oneBased file) = .ok (tabixAggregate bins oneBased file) := by
+  have hK : aggregated bins { tril := .keep } (tbxRecs oneBased file) =
+      .ok (groupCells ((anchors { tril := .keep } (tbxRecs oneBased file)).map (keyOf bins (getBinsize bins)))) := by
+    rw [aggregated_eq, pipeline_of_inside _ _ hin]
+    simp [aggOf, orientAnchors]
+  rw [hK]
+  congr 1
+  generalize hKdef : (anchors { tril := .keep } (tbxRecs oneBased file)).map (keyOf bins (getBinsize bins)) = K
+  -- rows
+  have hrows : tabixAggregate bins oneBased file =
+      ((List.range bins.length).map Int.ofNat).flatMap (rowCells K) := by
+    unfold tabixAggregate
+    rw [List.flatMap_map]
+    have hz : ((List.range bins.length).zip bins).flatMap
+          (fun ib => tbxRow bins (getBinsize bins) oneBased file ib.1 ib.2)
+        = ((List.range bins.length).zip bins).flatMap (fun ib => rowCells K (Int.ofNat ib.1)) := by
+      apply flatMap_congr_mem
+      intro ib hib
+      have hi := List.of_mem_zip hib
+      have hget : bins[ib.1]? = some ib.2 := by
+        obtain ⟨k, hk1, hk2⟩ := List.mem_iff_getElem.mp hib
+        have hk1' : k < bins.length := by simp at hk1; omega
+        have : ib = (k, bins[k]) := by
+          rw [← hk2]; simp
+        rw [this]
+        exact List.getElem?_eq_getElem hk1'
+      unfold tbxRow rowCells
+      rw [tbxHits_eq hT oneBased file hin hget, hKdef]
+      rfl
+    rw [hz]
+    have : ((List.range bins.length).zip bins).flatMap (fun ib => rowCells K (Int.ofNat ib.1))
+        = (((List.range bins.length).zip bins).map Prod.fst).flatMap (fun i => rowCells K (Int.ofNat i)) := by
+      rw [List.flatMap_map]
+    rw [this, List.map_fst_zip (by simp)]
+  rw [hrows]
+  apply (rows_flatMap_eq _ ?_ K ?_).symm
+  · rw [List.pairwise_map]
+    exact (List.pairwise_lt_range).imp (fun h => by simp only [Int.ofNat_eq_natCast]; omega)
+  · intro kv hkv
+    rw [← hKdef] at hkv
+    obtain ⟨a, ha, rfl⟩ := List.mem_map.mp hkv
+    obtain ⟨h1, h2, _, _⟩ := hin a ha
+    have hb := assign_eq_binOf hT (binsize_truthful hT) h1 h2
+    obtain ⟨_, hnn, b, hb', _⟩ := binOf_sound hb
+    have hlt : (assignBin bins (getBinsize bins) a.c1 a.a1).toNat < bins.length := by
+      rcases Nat.lt_or_ge (assignBin bins (getBinsize bins) a.c1 a.a1).toNat bins.length with h' | h'
+      · exact h'
+      · rw [List.getElem?_eq_none h'] at hb'; simp at hb'
+    simp only [keyOf, List.mem_map, List.mem_range]
+    exact ⟨_, hlt, by simp only [Int.ofNat_eq_natCast]; omega⟩
+
+/-- non-vacuity of `tabix_correct`: a four-line file (one line with an unknown second chromosome),
+one-based second positions; hypotheses hold and the stream is the expected one -/
+example : TableOK [⟨0, 0, 2⟩, ⟨0, 2, 4⟩, ⟨1, 0, 3⟩] ∧
+    (∀ a ∈ anchors { tril := .keep } (tbxRecs true
+        [⟨some 0, 1, some 1, 3⟩, ⟨some 0, 3, some 0, 4⟩, ⟨some 0, 3, none, 9⟩, ⟨some 0, 1, some 1, 1⟩]),
+      a.inside [⟨0, 0, 2⟩, ⟨0, 2, 4⟩, ⟨1, 0, 3⟩]) ∧
+    tabixAggregate [⟨0, 0, 2⟩, ⟨0, 2, 4⟩, ⟨1, 0, 3⟩] true
+      [⟨some 0, 1, some 1, 3⟩, ⟨some 0, 3, some 0, 4⟩, ⟨some 0, 3, none, 9⟩, ⟨some 0, 1, some 1, 1⟩]
+      = [⟨(0, 2), 2, 0⟩, ⟨(1, 1), 1, 0⟩] := by
+  refine ⟨⟨by decide, ?_⟩, by decide, by decide⟩
+  intro g hg
+  have : g ∈ [[(⟨0, 0, 2⟩ : Bin), ⟨0, 2, 4⟩], [⟨1, 0, 3⟩]] := by
+    simpa [groups, chromOrder, groupOf] using hg
+  simp at this
+  rcases this with h | h <;> subst h <;> decide
 
 end Cooler.C05
